@@ -1,7 +1,11 @@
 #!/bin/bash
-# usage: seedcheck.sh <seed-name> <worktree> <property> -- confirms a seeded change and runs the check against it
+# usage: seedcheck.sh <seed-name> <worktree> <property> [wt|repo]
+# Confirms a seeded change (builds, suite passes, demo fails with / passes without) and runs the quick check against it.
+# mode wt (default): the check runs against the worktree itself (symgo -repo <worktree>, evidence/replays in a scratch
+# directory), so several seeds can be tried in parallel and /repo stays untouched; mode repo: the registered command
+# with the change applied to /repo and undone afterwards (the form recorded in meta.json).
 export GOFLAGS=-mod=mod GOPROXY=off GOSUMDB=off GOTOOLCHAIN=local
-name=$1; wt=$2; prop=$3
+name=$1; wt=$2; prop=$3; mode=${4:-wt}
 cd $wt || exit 1
 demo_pkg=$(dirname $(git status --short | grep zz_demo_test.go | awk '{print $2}'))
 echo "demo package: $demo_pkg"
@@ -13,14 +17,20 @@ go build ./... || { echo BUILD-FAIL; exit 1; }
 go test -count=1 ./$demo_pkg/ 2>&1 | grep -c "^--- FAIL" | sed 's/^/WITH change, demo failing tests: /'
 mv $demo_pkg/zz_demo_test.go /tmp/zz_demo_$name.go
 go test -count=1 ./pkg/... 2>&1 | grep -v "^ok\|no test files\|pkg/util/json" | head -5 | sed 's/^/SUITE: /'
-mv /tmp/zz_demo_$name.go $demo_pkg/zz_demo_test.go
 mkdir -p /verif/seeded/$name
 git diff > /verif/seeded/$name/patch.diff
-cp $demo_pkg/zz_demo_test.go /verif/seeded/$name/demo_test.go
+cp /tmp/zz_demo_$name.go /verif/seeded/$name/demo_test.go
 cp SEED/NOTES.md /verif/seeded/$name/NOTES.md 2>/dev/null
 echo "$demo_pkg" > /verif/seeded/$name/demo_pkg.txt
-# run the check on /repo with the change applied
-cd /repo && git apply /verif/seeded/$name/patch.diff || { echo APPLY-FAIL; exit 1; }
-cd /verif && timeout 1500 ./check $prop quick > /tmp/seed_$name.log 2>&1; rc=$?
-git -C /repo checkout -- .
+if [ "$mode" = "repo" ]; then
+  mv /tmp/zz_demo_$name.go $demo_pkg/zz_demo_test.go
+  cd /repo && git apply /verif/seeded/$name/patch.diff || { echo APPLY-FAIL; exit 1; }
+  cd /verif && timeout 1500 ./check $prop quick > /tmp/seed_$name.log 2>&1; rc=$?
+  git -C /repo checkout -- .
+else
+  vs=/tmp/vs_$name; rm -rf $vs; mkdir -p $vs
+  cp -r /verif/harness /verif/rt /verif/known_findings.json $vs/
+  timeout 1500 /verif/bin/symgo -prop $prop -tier quick -repo $wt -verif $vs -workers ${SEED_WORKERS:-8} > /tmp/seed_$name.log 2>&1; rc=$?
+  mv /tmp/zz_demo_$name.go $demo_pkg/zz_demo_test.go
+fi
 echo "CHECK exit=$rc"; grep "VIOLATION\|INCONCL\|^OK" /tmp/seed_$name.log | cut -c1-220 | head -5
